@@ -190,7 +190,15 @@ def make_numpy():
     m.ones = lambda shape, dtype=None: T.ones(shape if isinstance(shape, (tuple, list)) else (shape,), dtype=dtype or "float64", cls=NDArray)
 
     def empty(shape, dtype=None):
-        return m.zeros(shape, dtype=dtype)
+        """uninitialised memory: every cell is an arbitrary value (havoc) while a symbolic run is in progress"""
+        r = m.zeros(shape, dtype=dtype)
+        ctx = core.cur()
+        if ctx is not None:
+            isint = str(r.dtype) in T.INT_DTYPES
+            for c in np.ndindex(*r.a.shape):
+                k = ctx.state["uninit"] = ctx.state.get("uninit", 0) + 1
+                r.a[c] = (core.Int if isint else core.Real)("uninit!%d" % k)
+        return r
     m.empty = empty
     m.zeros_like = lambda x, dtype=None: T.full_like(x if isinstance(x, Arr) else NDArray(x), 0, dtype)
     m.ones_like = lambda x, dtype=None: T.full_like(x if isinstance(x, Arr) else NDArray(x), 1, dtype)
@@ -412,11 +420,35 @@ def make_torch():
 
 # ----------------------------------------------------------------------------- misc facades
 
+def _fastmath(f, opts):
+    """fastmath=True gives LLVM the `ninf nnan` flags: an operation with a +-inf / NaN operand or result yields poison.
+    Model: if any log-domain argument may be -inf (p == 0), the result is an arbitrary value (possibly NaN)."""
+    import functools
+
+    @functools.wraps(f)
+    def w(*a, **kw):
+        r = f(*a, **kw)
+        logs = [x for x in a if isinstance(x, core.SLog)]
+        if logs and isinstance(r, core.SLog) and core.cur() is not None:
+            ctx = core.cur()
+            k = ctx.state["poison"] = ctx.state.get("poison", 0) + 1
+            anyinf = core.s_or(*[x.p == 0 for x in logs])
+            if anyinf is not False:
+                fresh = core.Real("poison!%d" % k)
+                return core.SLog(core.ite(anyinf, fresh, r.p), core.s_or(r.nan, core.s_and(anyinf, core.Bool("poison_nan!%d" % k))))
+        return r
+    w.__numba_opts__ = opts
+    w.py_func = f
+    return w
+
+
 def make_numba():
     m = types.ModuleType("numba")
 
     def jit(*a, **k):
         def deco(f):
+            if k.get("fastmath"):
+                return _fastmath(f, dict(k))
             f.__numba_opts__ = dict(k)
             f.py_func = f
             return f
